@@ -175,9 +175,13 @@ func (i Branch) String() string {
 }
 
 func (i Branch) adjust(offset int, state *GenState) SearchInstruction {
+	// the stored pattern is relocated again by every command that references it:
+	// shift a copy of the targets, not the slice shared with the stored instruction
+	branches := make([]int, len(i.Branches))
 	for idx := range i.Branches {
-		i.Branches[idx] += offset
+		branches[idx] = i.Branches[idx] + offset
 	}
+	i.Branches = branches
 	return i
 }
 
